@@ -42,6 +42,7 @@ def _work(chunk):
         "chunk": chunk,
         "findings": [f.to_json() for f in fs.values()],
         "obligations": ck.obligations,
+        "ob": ck.ob,
         "discharged": ck.discharged,
         "traces": len(outs),
         "trace_kinds": kinds,
@@ -67,7 +68,7 @@ def run(facts_path, workers=None):
     t0 = time.time()
     with mp.Pool(workers, initializer=_init, initargs=(facts_path,)) as pool:
         res = pool.map(_work, chunks, chunksize=1)
-    agg = {"findings": {}, "obligations": 0, "discharged": 0, "traces": 0, "trace_kinds": {}, "forms": {}, "complete": True,
+    agg = {"findings": {}, "ob": {}, "obligations": 0, "discharged": 0, "traces": 0, "trace_kinds": {}, "forms": {}, "complete": True,
            "unimpl_checked": 0, "undecided": 0, "unknown_callees": {}, "nodes": 0, "stmts": 0, "chunks": len(chunks)}
     for r in res:
         for f in r["findings"]:
@@ -75,6 +76,12 @@ def run(facts_path, workers=None):
         for k in ("obligations", "discharged", "traces", "unimpl_checked", "undecided", "nodes"):
             agg[k] += r[k]
         agg["stmts"] += r["interp"].get("stmts", 0)
+        for k, v in r["ob"].items():
+            d = agg["ob"].setdefault(k, [0, 0])
+            d[0] += v[0]
+            d[1] += v[1]
+        if len(agg.setdefault("samples", [])) < 8:
+            agg["samples"].extend(r["samples"][:1])
         for k, v in r["trace_kinds"].items():
             agg["trace_kinds"][k] = agg["trace_kinds"].get(k, 0) + v
         for k, v in r["forms"].items():
